@@ -75,6 +75,60 @@ func (cr *constResolver) resolve(pinfo *types.Info, e ast.Expr, depth int) (vals
 				return cr.resolve(pinfo, x.Elts[0], depth+1)
 			}
 		}
+	case *ast.SelectorExpr:
+		// a field of a module struct: every value stored under that field (literal keys and assignments, wherever they
+		// are) must resolve
+		if s := pinfo.Selections[x]; s != nil && s.Kind() == types.FieldVal {
+			field, _ := s.Obj().(*types.Var)
+			if field == nil || field.Pkg() == nil || !strings.HasPrefix(field.Pkg().Path(), modPath) {
+				return nil, false
+			}
+			field = field.Origin()
+			var all []string
+			okAll, stores := true, 0
+			for fn, fd := range cr.cg.Decl {
+				if fd.Body == nil {
+					continue
+				}
+				finfo := cr.cg.PkgOf[fn].TypesInfo
+				ast.Inspect(fd.Body, func(n ast.Node) bool {
+					var val ast.Expr
+					switch st := n.(type) {
+					case *ast.KeyValueExpr:
+						if k, ok := st.Key.(*ast.Ident); ok {
+							if kv, ok := finfo.Uses[k].(*types.Var); ok && kv.Origin() == field {
+								val = st.Value
+							}
+						}
+					case *ast.AssignStmt:
+						if len(st.Lhs) == len(st.Rhs) {
+							for i, l := range st.Lhs {
+								if ls, ok := ast.Unparen(l).(*ast.SelectorExpr); ok {
+									if sl := finfo.Selections[ls]; sl != nil {
+										if fv, ok := sl.Obj().(*types.Var); ok && fv.Origin() == field {
+											val = st.Rhs[i]
+										}
+									}
+								}
+							}
+						}
+					}
+					if val != nil {
+						stores++
+						vs, ok := cr.resolve(finfo, val, depth+1)
+						if !ok {
+							okAll = false
+						}
+						all = append(all, vs...)
+					}
+					return true
+				})
+			}
+			if stores > 0 && okAll {
+				return all, true
+			}
+			return nil, false
+		}
 	case *ast.Ident:
 		obj := pinfo.Uses[x]
 		if v, isVar := obj.(*types.Var); isVar && v.Pkg() != nil && v.Parent() == v.Pkg().Scope() {
